@@ -33,7 +33,13 @@ RULE = ("rows: Hypothesis draws an environment (fluence 1e2..1e16, Cd ratio in {
         "s2 t > 1e-3; distinct by (row, environment). samples: formulas of 1..4 atoms (natural elements, isotopes, "
         "ions, isotope ions, D, T) x both abundance functions; oracle = sum over atoms of mass fraction x abundance "
         "(abundances re-read from the embedded NIST table text / activation.dat) x activity(isotope); all non-trivial. "
-        "table: every parsed field of every row equals the independent reading.")
+        "table: every parsed field of every row equals the independent reading. reuse: ONE Sample object receives 2..3 "
+        "consecutive calculate_activation calls (beam, exposure, rest times change; the two abundance functions "
+        "alternate, starting with either) and after each call its activity must equal the independent expectation and "
+        "the activity of a fresh Sample given the same call; ActivationEnvironment objects are shared between samples "
+        "and calls and must stay unchanged, as must the caller's rest-time list (also for direct activity() calls, "
+        "where one environment object and one list serve all isotopes of an example); every element is run with both "
+        "abundance functions in both orders within one process.")
 ASSUMPTIONS = [
     "the chain solved for 'b' rows has a constant production rate of the parent (no target or parent burn-up), as the "
     "table comments state ('burnup not calculated'); for other rows the product burns up with the cross sections of "
@@ -211,8 +217,10 @@ def row_case(row, envd):
             "daughter": row["daughter"], "reaction": row["reaction"], "env": envd}
 
 
-def isotope_violations(ctx, key, envd, only_pos=None, count=True):
-    """Evaluate all rows of target isotope *key* in *envd*; yield Violations."""
+def isotope_violations(ctx, key, envd, only_pos=None, count=True, shared=None):
+    """Evaluate all rows of target isotope *key* in *envd*; yield Violations.
+    *shared* = {"environment": obj, "rests": list}: objects reused for every
+    isotope of the example; activity() must leave both unchanged."""
     E = env()
     rows = E.byiso[key]
     iso = E.table[key[0]][key[1]]
@@ -222,8 +230,11 @@ def isotope_violations(ctx, key, envd, only_pos=None, count=True):
                         % (rows[0]["isotope"], None if ais is None else len(ais), len(rows)),
                         {"kind": "table"})
         return
-    environment = make_env(E, envd)
-    mass, exposure, rests = envd["mass"], envd["exposure"], list(envd["rests"])
+    if shared is None:
+        shared = {"environment": make_env(E, envd), "rests": list(envd["rests"])}
+    environment = shared["environment"]
+    env_before = dict(vars(environment))
+    mass, exposure, rests = envd["mass"], envd["exposure"], shared["rests"]
     exposure2 = exposure * (1.0 + envd["grow"])
     calls = {"A": (mass, exposure, [0.0]), "B": (mass, exposure, rests),
              "C": (envd["mass2"], exposure, [0.0]), "D": (mass, exposure2, [0.0])}
@@ -236,6 +247,16 @@ def isotope_violations(ctx, key, envd, only_pos=None, count=True):
         except Exception as e:  # noqa
             failed = (name, e)
             break
+    if rests != list(envd["rests"]):
+        yield Violation("c14:argument-modified:rest_times",
+                        "%s: activity() changed the caller's rest_times list in place: %r -> %r"
+                        % (rows[0]["isotope"], envd["rests"], rests), row_case(rows[0], envd))
+        rests[:] = list(envd["rests"])
+    if dict(vars(environment)) != env_before:
+        yield Violation("c14:reuse:environment-modified",
+                        "%s: activity() changed the ActivationEnvironment: %r -> %r"
+                        % (rows[0]["isotope"], env_before, dict(vars(environment))), row_case(rows[0], envd))
+        shared["environment"] = environment = make_env(E, envd)
     if failed is not None:
         name, e0 = failed
         m, ex, rs = calls[name]
@@ -365,8 +386,10 @@ def isotope_violations(ctx, key, envd, only_pos=None, count=True):
 
 
 def run_env(ctx, envd, keys, only_pos=None):
+    # ONE environment object and ONE rest-time list serve every isotope of the example
+    shared = {"environment": make_env(env(), envd), "rests": list(envd["rests"])}
     for key in keys:
-        for v in isotope_violations(ctx, key, envd, only_pos):
+        for v in isotope_violations(ctx, key, envd, only_pos, shared=shared):
             if ctx.skip_bucket(v.bucket):
                 continue
             raise v
@@ -506,27 +529,23 @@ def spec_class(spec):
     return ("isotope-ion" if c else "isotope") if a else ("ion" if c else "element")
 
 
-def check_sample(ctx, value):
-    atoms, envd, which = value
-    E = env()
-    formula = "".join(atom_string(sp, cnt) for sp, cnt in atoms)
-    case = {"kind": "sample", "atoms": atoms, "env": envd, "abundance": which, "formula": formula}
-    classes = sorted(set(spec_class(sp) for sp, _ in atoms))
-    ctx.case((formula, which, envkey(envd)), nontrivial=True, sample={"formula": formula, "abundance": which, "env": envd},
-             cls=["sample:" + c for c in classes] + ["abundance:" + which, "atoms:%d" % len(atoms)])
+def expected_sample(E, atoms, envd, which, case, environment=None):
+    """Independent expectation for a sample: sum over the atoms of the formula of
+    mass fraction x abundance (re-read tables) x activity(isotope).
+    Returns (expected, scale, base_failed): {(Z, A, pos): [values per rest time]},
+    the sum of magnitudes (for the tolerance) and (isotope, exception) if
+    activity() itself failed for one isotope."""
     abundance = E.act.NIST2001_isotopic_abundance if which == "NIST" else E.act.IAEA1987_isotopic_abundance
     mine = E.nist if which == "NIST" else E.iaea
-    environment = make_env(E, envd)
+    if environment is None:
+        environment = make_env(E, envd)
     mass, exposure, rests = envd["mass"], envd["exposure"], list(envd["rests"])
-
     # independent mass fractions
     objs = [resolve(E, sp) for sp, _ in atoms]
     weights = [Fraction(cnt) * Fraction(o.mass) for (sp, cnt), o in zip(atoms, objs)]
     total = sum(weights)
-    # expected activity per (Z, A, pos)
     expected = {}
     scale = {}
-    base_failed = None
     for (sp, cnt), w in zip(atoms, weights):
         frac = float(w / total)
         z, a = iso_of(E, sp)
@@ -544,45 +563,28 @@ def check_sample(ctx, value):
                     raise Violation("c14:natural:abundance-value:%s" % which,
                                     "%s[%d]: the %s abundance function returns %r %%, the table text says %r %%"
                                     % (el.symbol, ia, which, have, ab),
-                                    dict(case, atoms=[[[el.symbol, 0, 0], "1"]], formula=el.symbol))
+                                    {"kind": "sample", "atoms": [[[el.symbol, 0, 0], "1"]], "env": envd,
+                                     "abundance": which, "formula": el.symbol})
                 if ab:
                     parts.append((ia, mass * frac * ab * 0.01))
         for ia, m in parts:
             iso = E.table[z][ia]
             try:
-                res = E.act.activity(iso, m, environment, exposure, rests)
+                res = E.act.activity(iso, m, environment, exposure, list(rests))
             except Exception as e:  # noqa  (a row-level failure; reported by the row tasks with its own bucket)
-                base_failed = (iso, e)
-                break
+                return expected, scale, (iso, e)
             for ai, vals in res.items():
                 k = (z, ia, iso.neutron_activation.index(ai))
                 old = expected.get(k, [0.0] * len(rests))
                 expected[k] = [x + y for x, y in zip(old, vals)]
                 scale[k] = [abs(x) + abs(y) for x, y in zip(scale.get(k, [0.0] * len(rests)), vals)]
-        if base_failed:
-            break
-    try:
-        sample = E.act.Sample(formula, mass)
-        sample.calculate_activation(environment, exposure=exposure, rest_times=rests, abundance=abundance)
-    except Exception as e:  # noqa
-        if base_failed is not None and type(e) is type(base_failed[1]):
-            ctx.count("sample:skipped:row-level-exception")
-            # attribute to the row
-            key = (base_failed[0].number, base_failed[0].isotope)
-            for v in isotope_violations(ctx, key, dict(envd, rests=[0.0], mass2=envd["mass"], grow=1.0), count=False):
-                if "exception" in v.bucket and not ctx.skip_bucket(v.bucket):
-                    raise v
-            return
-        fr = lib_frame(e.__traceback__) or "?"
-        who = "element-ion" if any(c in ("ion", "DT-ion") for c in classes) else "no-element-ion"
-        raise Violation("c14:sample:%s:exception:%s:%s" % (who, type(e).__name__, fr),
-                        "Sample(%r).calculate_activation raised %s: %s" % (formula, type(e).__name__, str(e)[:150]), case)
-    if base_failed is not None:
-        ctx.count("sample:skipped:row-level-exception")
-        return
+    return expected, scale, None
+
+
+def compare_sample(E, atoms, activity, expected, scale, formula, which):
+    """None if the activity dict of a Sample equals the expectation, else (bucket, message)."""
     got = {}
-    for ai, vals in sample.activity.items():
-        # locate the row
+    for ai, vals in activity.items():
         found = None
         for (z, a) in set(iso_of(E, sp) for sp, _ in atoms):
             for ia in ([a] if a else E.table[z].isotopes):
@@ -591,8 +593,8 @@ def check_sample(ctx, value):
                     if x is ai:
                         found = (z, ia, pos)
         if found is None:
-            raise Violation("c14:sample:foreign-product", "Sample(%r) reports %s -> %s which belongs to no atom of the formula"
-                            % (formula, ai.isotope, ai.daughter), case)
+            return ("c14:sample:foreign-product", "Sample(%r) reports %s -> %s which belongs to no atom of the formula"
+                    % (formula, ai.isotope, ai.daughter))
         got[found] = list(vals)
     for k in sorted(set(expected) | set(got)):
         z, ia, pos = k
@@ -600,15 +602,167 @@ def check_sample(ctx, value):
         if k not in got:
             if all(x == 0 for x in expected[k]):
                 continue
-            raise Violation("c14:sample:product-missing", "Sample(%r) [%s]: %s missing, expected %r"
-                            % (formula, which, name, expected[k]), case)
+            return ("c14:sample:product-missing", "Sample(%r) [%s]: %s missing, expected %r" % (formula, which, name, expected[k]))
         if k not in expected:
-            raise Violation("c14:sample:product-unexpected", "Sample(%r) [%s]: %s reported %r, expected nothing"
-                            % (formula, which, name, got[k]), case)
-        for g, w, s in zip(got[k], expected[k], scale[k]):
-            if abs(g - w) > 1e-12 * s + FLOOR:
-                raise Violation("c14:sample:weighted-sum", "Sample(%r) [%s]: %s is %r, mass-fraction x abundance x activity gives %r"
-                                % (formula, which, name, g, w), case)
+            return ("c14:sample:product-unexpected", "Sample(%r) [%s]: %s reported %r, expected nothing"
+                    % (formula, which, name, got[k]))
+        if len(got[k]) != len(expected[k]):
+            return ("c14:sample:length", "Sample(%r) [%s]: %s has %d values for %d rest times"
+                    % (formula, which, name, len(got[k]), len(expected[k])))
+        for g, w, sc in zip(got[k], expected[k], scale[k]):
+            if abs(g - w) > 1e-12 * sc + FLOOR:
+                return ("c14:sample:weighted-sum", "Sample(%r) [%s]: %s is %r, mass-fraction x abundance x activity gives %r"
+                        % (formula, which, name, g, w))
+    return None
+
+
+def sample_exception(ctx, E, e, base_failed, envd, classes, formula, case):
+    """calculate_activation raised: blame the row if activity() fails the same way, else the sample."""
+    if base_failed is not None and type(e) is type(base_failed[1]):
+        ctx.count("sample:skipped:row-level-exception")
+        key = (base_failed[0].number, base_failed[0].isotope)
+        for v in isotope_violations(ctx, key, dict(envd, rests=[0.0], mass2=envd["mass"], grow=1.0), count=False):
+            if "exception" in v.bucket and not ctx.skip_bucket(v.bucket):
+                raise v
+        return
+    fr = lib_frame(e.__traceback__) or "?"
+    who = "element-ion" if any(c in ("ion", "DT-ion") for c in classes) else "no-element-ion"
+    raise Violation("c14:sample:%s:exception:%s:%s" % (who, type(e).__name__, fr),
+                    "Sample(%r).calculate_activation raised %s: %s" % (formula, type(e).__name__, str(e)[:150]), case)
+
+
+def check_sample(ctx, value):
+    atoms, envd, which = value
+    E = env()
+    formula = "".join(atom_string(sp, cnt) for sp, cnt in atoms)
+    case = {"kind": "sample", "atoms": atoms, "env": envd, "abundance": which, "formula": formula}
+    classes = sorted(set(spec_class(sp) for sp, _ in atoms))
+    ctx.case((formula, which, envkey(envd)), nontrivial=True, sample={"formula": formula, "abundance": which, "env": envd},
+             cls=["sample:" + c for c in classes] + ["abundance:" + which, "atoms:%d" % len(atoms)])
+    abundance = E.act.NIST2001_isotopic_abundance if which == "NIST" else E.act.IAEA1987_isotopic_abundance
+    environment = make_env(E, envd)
+    expected, scale, base_failed = expected_sample(E, atoms, envd, which, case, environment)
+    try:
+        sample = E.act.Sample(formula, envd["mass"])
+        sample.calculate_activation(environment, exposure=envd["exposure"], rest_times=list(envd["rests"]), abundance=abundance)
+    except Exception as e:  # noqa
+        sample_exception(ctx, E, e, base_failed, envd, classes, formula, case)
+        return
+    if base_failed is not None:
+        ctx.count("sample:skipped:row-level-exception")
+        return
+    bad = compare_sample(E, atoms, sample.activity, expected, scale, formula, which)
+    if bad:
+        raise Violation(bad[0], bad[1], case)
+
+
+# ----------------------------------------------------------------------
+# one Sample object reused for consecutive calculations
+def other(which):
+    return "IAEA" if which == "NIST" else "NIST"
+
+
+def reuse_steps(bright=False):
+    flu = logu(1e6, 1e16) if bright else logu(1e2, 1e16)
+    step = st.fixed_dictionaries(dict(fluence=flu, Cd=cd_ratio(), fast=fast_ratio(), exposure=logu(1e-3, 1e4),
+                                      rests=rest_list(hi=1e4), same_env=st.booleans()))
+    return st.lists(step, min_size=2, max_size=3)
+
+
+def reuse_cases(E):
+    return st.fixed_dictionaries(dict(atoms=sample_atoms(E), mass=logu(1e-6, 1e3), steps=reuse_steps(),
+                                      first=st.sampled_from(["NIST", "IAEA"])))
+
+
+def step_env(steps, i, mass):
+    """Environment dict of step i: a step flagged same_env uses the beam of step 0
+    (and therefore the same ActivationEnvironment object)."""
+    stp = steps[i]
+    src = steps[0] if (i > 0 and stp["same_env"]) else stp
+    return dict(fluence=src["fluence"], Cd=src["Cd"], fast=src["fast"], exposure=stp["exposure"],
+                rests=list(stp["rests"]), mass=mass)
+
+
+def same_activity(a, b):
+    """Two activity dicts are identical: same row objects in the same order, same values."""
+    if [id(k) for k in a] != [id(k) for k in b]:
+        return False
+    return all(list(a[k]) == list(b[k]) for k in a)
+
+
+def check_reuse(ctx, v):
+    """Consecutive calculate_activation calls on ONE Sample (different beam,
+    exposure, rest times, abundance function - the two functions alternate, in
+    either order) must each give what a fresh Sample gives and what the
+    independent expectation says; the caller's rest-time list and the
+    ActivationEnvironment objects (shared by the samples) must not change."""
+    from ..guards import unchanged
+    E = env()
+    atoms, mass, steps = v["atoms"], v["mass"], v["steps"]
+    formula = "".join(atom_string(sp, cnt) for sp, cnt in atoms)
+    case = dict(v, kind="reuse", formula=formula)
+    classes = sorted(set(spec_class(sp) for sp, _ in atoms))
+    ctx.case((formula, mass, repr(steps), v["first"]), nontrivial=True,
+             sample={"formula": formula, "steps": steps, "first": v["first"]},
+             cls=["reuse:steps:%d" % len(steps), "reuse:first:" + v["first"]] + ["reuse:" + c for c in classes])
+    env_objs = {}
+    try:
+        reused = E.act.Sample(formula, mass)
+    except Exception:  # noqa  (C01's business)
+        ctx.count("reuse:skipped:formula")
+        return
+    for i in range(len(steps)):
+        envd = step_env(steps, i, mass)
+        which = v["first"] if i % 2 == 0 else other(v["first"])
+        abundance = E.act.NIST2001_isotopic_abundance if which == "NIST" else E.act.IAEA1987_isotopic_abundance
+        ekey = (envd["fluence"], envd["Cd"], envd["fast"])
+        if ekey not in env_objs:
+            env_objs[ekey] = make_env(E, envd)
+        else:
+            ctx.count("reuse:environment-object-shared")
+        environment = env_objs[ekey]
+        snap = dict(vars(environment))
+        expected, scale, base_failed = expected_sample(E, atoms, envd, which, case, environment)
+        L = list(envd["rests"])
+        where = "step %d of %d (%s, exposure %r, rest times %r)" % (i + 1, len(steps), which, envd["exposure"], envd["rests"])
+        fresh = E.act.Sample(formula, mass)
+        try:
+            fresh.calculate_activation(environment, exposure=envd["exposure"], rest_times=list(L), abundance=abundance)
+        except Exception as e:  # noqa
+            sample_exception(ctx, E, e, base_failed, envd, classes, formula, case)
+            return
+        try:
+            with unchanged("c14", case, rest_times=L):
+                reused.calculate_activation(environment, exposure=envd["exposure"], rest_times=L, abundance=abundance)
+        except Violation:
+            raise
+        except Exception as e:  # noqa
+            raise Violation("c14:reuse:sample-state", "Sample(%r) %s: the reused sample raised %s: %s, a fresh one does not"
+                            % (formula, where, type(e).__name__, str(e)[:120]), case)
+        if dict(vars(environment)) != snap:
+            raise Violation("c14:reuse:environment-modified", "Sample(%r) %s: the ActivationEnvironment changed from %r to %r"
+                            % (formula, where, snap, dict(vars(environment))), case)
+        if base_failed is not None:
+            ctx.count("sample:skipped:row-level-exception")
+            return
+        bad = compare_sample(E, atoms, fresh.activity, expected, scale, formula, which)
+        if bad:
+            raise Violation(bad[0], "%s: %s" % (where, bad[1]), case)
+        bad = compare_sample(E, atoms, reused.activity, expected, scale, formula, which)
+        if bad or not same_activity(reused.activity, fresh.activity):
+            raise Violation("c14:reuse:sample-state",
+                            "Sample(%r) %s: the reused sample differs from a fresh one: %s"
+                            % (formula, where, bad[1] if bad else "activity %r vs %r" % (
+                                sorted((k.daughter, x) for k, x in reused.activity.items())[:4],
+                                sorted((k.daughter, x) for k, x in fresh.activity.items())[:4])), case)
+        if list(reused.rest_times) != envd["rests"] or reused.exposure != envd["exposure"] or reused.environment is not environment:
+            raise Violation("c14:reuse:sample-attributes", "Sample(%r) %s: rest_times %r exposure %r recorded"
+                            % (formula, where, reused.rest_times, reused.exposure), case)
+
+
+def task_reuse(ctx, n):
+    E = env()
+    ctx.search("reuse", reuse_cases(E), check_reuse, n)
 
 
 def task_samples(ctx, n):
@@ -622,10 +776,16 @@ def task_elements(ctx):
     E = env()
     P = sample_pool(E)
     envd = dict(fluence=1e8, Cd=70.0, fast=50.0, exposure=10.0, rests=[0.0, 1.0, 24.0, 360.0], mass=1.0, mass2=2.0, grow=1.0)
-    for sym in P["active"] + P["inactive"][:8]:
-        for which in ("NIST", "IAEA"):
-            for spec in ([sym, 0, 0],) + tuple([sym, 0, c] for c in E.table.symbol(sym).ions[:1]):
-                ctx.check(check_sample, [[[spec, "1"]], envd, which])
+    syms = P["active"] + P["inactive"][:8]
+    # both abundance functions for every element, in both orders within the
+    # process: pass 0 uses NIST then IAEA for even positions and IAEA then NIST for
+    # odd ones, pass 1 the reverse (so every element sees N,I,I,N or I,N,N,I)
+    for rep in (0, 1):
+        for n, sym in enumerate(syms):
+            order = ("NIST", "IAEA") if (n + rep) % 2 == 0 else ("IAEA", "NIST")
+            for which in order:
+                for spec in ([sym, 0, 0],) + tuple([sym, 0, c] for c in E.table.symbol(sym).ions[:1]):
+                    ctx.check(check_sample, [[[spec, "1"]], envd, which])
 
 
 def task_rows(ctx, n, part, parts, epi=True):
@@ -643,6 +803,7 @@ def tasks(tier):
     if tier == "quick":
         out = [("rows-%d" % k, task_rows, dict(n=60, part=k, parts=4)) for k in range(4)]
         out.append(("samples", task_samples, dict(n=400)))
+        out.append(("reuse", task_reuse, dict(n=200)))
         out.append(("elements", task_elements, {}))
         out.append(("table", task_table, {}))
         return out
@@ -652,6 +813,8 @@ def tasks(tier):
             out.append(("rows-%d-%s" % (k, "abc"[rep]), task_rows, dict(n=1200, part=k, parts=4)))
     out.append(("samples-a", task_samples, dict(n=10000)))
     out.append(("samples-b", task_samples, dict(n=10000)))
+    out.append(("reuse-a", task_reuse, dict(n=5000)))
+    out.append(("reuse-b", task_reuse, dict(n=5000)))
     out.append(("elements", task_elements, {}))
     out.append(("table", task_table, {}))
     return out
@@ -666,6 +829,8 @@ def replay(ctx, case):
         check_epithermal(ctx, case["env"], [(case["Z"], case["A"])])
     elif kind == "sample":
         check_sample(ctx, [case["atoms"], case["env"], case["abundance"]])
+    elif kind == "reuse":
+        check_reuse(ctx, case)
     elif kind == "table":
         task_table(ctx)
     else:
